@@ -198,6 +198,10 @@ fn write_fd(uid: Uid, child: u8, ctx: Ctx) {
         }
         let n = s.fds.len();
         let c = &mut s.fds[child as usize % n];
+        if c.child == ChildSt::Gone {
+            // the sub-source was dropped and its fd closed: the number may belong to somebody else by now
+            return;
+        }
         let Some(peer) = c.peer.as_ref() else { return };
         use std::os::fd::AsRawFd;
         let praw = peer.as_raw_fd();
@@ -232,7 +236,7 @@ fn drain_fd(uid: Uid, child: u8) {
         }
         let n = s.fds.len();
         let c = &mut s.fds[child as usize % n];
-        if c.kind == FdKind::Pipe && c.int == Int::Write {
+        if c.child == ChildSt::Gone || (c.kind == FdKind::Pipe && c.int == Int::Write) {
             return;
         }
         sysx::drain_fd(c.src_raw);
@@ -257,6 +261,9 @@ fn fill_fd(uid: Uid, child: u8, unfill: bool) {
         }
         let n = s.fds.len();
         let c = &mut s.fds[child as usize % n];
+        if c.child == ChildSt::Gone {
+            return;
+        }
         if !matches!(c.int, Int::Write | Int::Both) || c.kind == FdKind::Eventfd || (c.kind == FdKind::Pipe && c.int != Int::Write) {
             return;
         }
@@ -694,7 +701,13 @@ fn set_deadline(h: &LoopHandle<'static, ()>, sel: Sel, dl: Dl, ctx: Ctx) {
         Ctx::Cb(u) => Some(u),
         _ => None,
     };
-    let Some(uid) = w(|w| resolve(w, sel, ctx, &|s| s.is_timer() && s.st == St::Enabled && s.disp.is_some() && Some(s.uid) != running)) else { return };
+    let Some(uid) = w(|w| {
+        let upd = w.allow_update_disabled;
+        resolve(w, sel, ctx, &|s| s.is_timer() && (s.st == St::Enabled || (upd && s.st == St::Disabled)) && s.disp.is_some() && Some(s.uid) != running)
+    }) else {
+        return;
+    };
+    let was_disabled = w(|w| w.srcs[uid].st == St::Disabled);
     let new = resolve_dl(dl);
     // set the deadline through the harness' own Dispatcher handle
     let tok = w(|w| {
@@ -732,6 +745,11 @@ fn set_deadline(h: &LoopHandle<'static, ()>, sel: Sel, dl: Dl, ctx: Ctx) {
         let d = w.dispatch_no;
         if w.in_dispatch {
             w.srcs[uid].touched_at = d;
+        }
+        if was_disabled {
+            // whatever update() answers for a disabled timer, it stays disabled and must stay silent
+            w.count("update_on_disabled");
+            return;
         }
         if let Err(e) = r {
             w.srcs[uid].st = St::Limbo;
